@@ -30,7 +30,7 @@ What is proved here:
   `statementsOrEmpty`, `statement`, `ifStatement`, `caseStatement`, `forStatement`, `whileStatement`, `repeatStatement`): the token list of every
   statement list built from assignments to named variables, IF … THEN … {ELSIF … THEN …} [ELSE …] END_IF, WHILE … DO … END_WHILE,
   REPEAT … UNTIL … END_REPEAT, FOR … := … TO … [BY …] DO … END_FOR, CASE … OF {n {, n} : …} [ELSE …] END_CASE
-  (unsigned integer selectors), EXIT and RETURN — nested to any depth, bodies of any length, any `MX.S`
+  (unsigned integer selectors), function block invocations `inst(n := e {, n := e})` with named inputs, EXIT and RETURN — nested to any depth, bodies of any length, any `MX.S`
   expression as condition or right-hand side — is read back as exactly the list of trees the grammar actions
   build: every statement, in order, each body under the statement it was written in (nothing dropped,
   duplicated, reordered or re-nested), with the fuel the driver really uses;
@@ -153,6 +153,19 @@ example :
   simp only [List.mem_singleton] at hm
   subst hm
   exact ⟨rfl, rfl, by decide⟩
+
+/-- non-vacuity: `t(IN := a, PT := b);` meets `WF` -/
+example :
+    let id (s : String) : Item := ⟨false, "Identifier", 0, 0, 0, 0, s.toList⟩
+    let kw (ty s : String) : Item := ⟨false, ty, 0, 0, 0, 0, s.toList⟩
+    (MX.Stl.cons (.callS (id "t") (kw "LeftParen" "(") (id "IN") (kw "Assignment" ":=") (.leaf (id "a"))
+        [(kw "Comma" ",", id "PT", kw "Assignment" ":=", .leaf (id "b"))] (kw "RightParen" ")")) (kw "Semicolon" ";") .nil).WF := by
+  intro id kw
+  refine ⟨⟨rfl, rfl, rfl, rfl, rfl, rfl, ?_⟩, rfl, trivial⟩
+  intro m hm
+  simp only [List.mem_singleton] at hm
+  subst hm
+  exact ⟨rfl, rfl, rfl, rfl⟩
 
 /-- **Round trip of whole libraries through the parser mirror**: programs without variable blocks, any number, any
 statements of `MX.Stl`. -/
